@@ -21,6 +21,8 @@ def int_to_seq(v, kind="str", max_digits=None):
     c = ctx()
     md = max_digits or getattr(c, "max_digits", MAX_DIGITS)
     w = WS if kind == "str" else WB
+    if v.bv is not None:
+        return _int_to_seq_bv(v, kind, md, w)
     e = v.e
     neg = c.decide(e < 0)
     a = -e if neg else e
@@ -35,6 +37,52 @@ def int_to_seq(v, kind="str", max_digits=None):
     for k in reversed(range(nd)):
         dv = (a / (10 ** k)) % 10
         digs.append(z3.Int2BV(dv + 48, w))
+    if neg:
+        digs.insert(0, bvv(ord("-"), w))
+    return SSeq(kind, digs, len(digs))
+
+
+def _int_to_seq_bv(v, kind, md, w):
+    """decimal rendering of a bit-vector backed int, entirely in bit-vector arithmetic"""
+    c = ctx()
+    neg = False if v.nonneg else bool(v < 0)
+    bw = v.bv.size() + 1
+    a = z3.SignExt(1, v.bv)
+    if neg:
+        a = -a
+    nd = None
+    for d in range(1, md + 1):
+        lim = 10 ** d
+        if lim.bit_length() + 1 > bw or c.decide(z3.ULT(a, z3.BitVecVal(lim, bw))):
+            nd = d
+            break
+    if nd is None:
+        raise BoundExceeded(f"str(int): more than {md} digits")
+    # the digits are fresh variables tied to the value by one linear constraint
+    # (multiplication by constants only -- division circuits stall bit-blasting)
+    need = (10 ** nd).bit_length() + 1
+    if need > bw:
+        a = z3.ZeroExt(need - bw, a)
+        bw = need
+    fid = next(c.fresh)
+    dvars = [z3.BitVec(f"dig{fid}_{k}", 4) for k in range(nd)]  # dvars[k] has weight 10**k
+    tot = z3.BitVecVal(0, bw)
+    for k, d in enumerate(dvars):
+        c.solver.add(z3.ULE(d, 9))
+        tot = tot + z3.ZeroExt(bw - 4, d) * z3.BitVecVal(10 ** k, bw)
+    c.solver.add(tot == a)
+    c.model = None
+    digs = []
+    for k in reversed(range(nd)):
+        ch = z3.ZeroExt(w - 4, dvars[k]) + 48
+        digs.append(ch)
+    # remember what these digit characters spell, so that parsing them back (int(),
+    # regex group + int()) returns the very same symbolic int without any arithmetic
+    rendered = getattr(c, "rendered", None)
+    if rendered is None:
+        rendered = c.rendered = {}
+    absval = (-v) if neg else v
+    rendered[tuple(d.get_id() for d in digs)] = (absval, list(digs))
     if neg:
         digs.insert(0, bvv(ord("-"), w))
     return SSeq(kind, digs, len(digs))
@@ -69,6 +117,11 @@ def seq_to_int(s, base=10):
     digs = es[i:]
     if not digs:
         raise bad
+    rendered = getattr(c, "rendered", None)
+    if rendered and base == 10:
+        hit = rendered.get(tuple(e.get_id() for e in digs))
+        if hit is not None:
+            return -hit[0] if neg else hit[0]
     # accumulate in a bit-vector wide enough for the digit count (no wrap-around)
     import math
 
